@@ -38,7 +38,7 @@ def check(case):
     st = dumps.build_state(resources, pk=cfg.get('pk', False), temporal_prop=temporal, reverse_row_keys=cfg.get('revkeys', False))
     label = 'dump_to_%s(format=%s%s%s%s%s) of %s' % (how, fmt, ', add_filehash_to_path' if cfg.get('filehash') else '',
                                                    ', temporal_format_property' if temporal else '', ', primaryKey' if cfg.get('pk') else '',
-                                                   ', row keys in reverse schema order' if cfg.get('revkeys') else '',
+                                                   ', row keys in reverse schema order' if cfg.get('revkeys') else '' + (', followed by a step editing rows in place' if cfg.get('mutate_after') else ''),
                                                    cj([{'fields': t['fields'], 'rows': t['rows']} for t in case['tables']])[:300])
     opts = {'format': fmt}
     if cfg.get('filehash'):
@@ -51,7 +51,11 @@ def check(case):
     viol = []
     with core.scratch_dir() as d:
         try:
-            emitted, desc, stats, root, out = dumps.run_dump(st, d, how, **opts)
+            dumps.options_after_mutation[0] = bool(cfg.get('mutate_after'))
+            try:
+                emitted, desc, stats, root, out = dumps.run_dump(st, d, how, **opts)
+            finally:
+                dumps.options_after_mutation[0] = False
         except core.CaseTimeout:
             raise
         except Exception as e:
@@ -169,6 +173,7 @@ def cases(tier):
     for cfg in full:
         out.append({'tables': [temporal_tbl], 'cfg': cfg})
         out.append({'tables': [temporal_tbl], 'cfg': dict(cfg, revkeys=True)})
+        out.append({'tables': [many_sorted], 'cfg': dict(cfg, mutate_after=True)})
         out.append({'tables': [many_sorted], 'cfg': dict(cfg, revkeys=True)})
     for cfg in full:
         for pk in (False, True):
